@@ -14,6 +14,7 @@ import (
 	logging "github.com/ipfs/go-log/v2"
 	"github.com/ipld/go-storethehash/store/freelist"
 	"github.com/ipld/go-storethehash/store/types"
+	"github.com/ipld/go-storethehash/store/vhook"
 )
 
 var log = logging.Logger("storethehash/mhprimary")
@@ -121,6 +122,7 @@ func (gc *primaryGC) gc(ctx context.Context, lowUsePercent int64, timeLimit time
 		return 0, fmt.Errorf("cannot process freelist: %w", err)
 	}
 
+	vhook.Point("prigc.afterFreeList")
 	// Remove all files in the affected set from the visited set.
 	for fileNum := range affectedSet {
 		delete(gc.visited, fileNum)
@@ -154,10 +156,12 @@ func (gc *primaryGC) gc(ctx context.Context, lowUsePercent int64, timeLimit time
 		}
 
 		if dead && fileNum == header.FirstFile {
+			vhook.Point("prigc.beforeHeader")
 			header.FirstFile++
 			if err = writeHeader(gc.primary.headerPath, header); err != nil {
 				return 0, fmt.Errorf("cannot write header: %w", err)
 			}
+			vhook.Point("prigc.beforeUnlink")
 			if err = os.Remove(filePath); err != nil {
 				return 0, fmt.Errorf("cannot remove primary file %s: %w", filePath, err)
 			}
@@ -266,6 +270,7 @@ func (gc *primaryGC) reapRecords(fileNum uint32, lowUsePercent int64) (bool, err
 
 	// If there is a span of free records at end of file, truncate file.
 	if freeAt > busyAt {
+		vhook.Point("prigc.beforeTruncate")
 		// End of primary is free.
 		if err = file.Truncate(freeAt); err != nil {
 			return false, err
@@ -316,11 +321,13 @@ func (gc *primaryGC) reapRecords(fileNum uint32, lowUsePercent int64) (bool, err
 			if err != nil {
 				return false, fmt.Errorf("cannot put new primary record: %w", err)
 			}
+			vhook.Point("prigc.reloc.afterPut")
 			// Update the index with the new primary location, but only if the
 			// index still refers to the record being moved.
 			offset := absolutePrimaryPos(types.Position(busyAt), fileNum, gc.primary.maxFileSize)
 			blk := types.Block{Size: types.Size(busySize), Offset: types.Position(offset)}
 			moved, err := gc.updateIndex(indexKey, blk, fileOffset)
+			vhook.Point("prigc.reloc.afterUpdate")
 			if err != nil || !moved {
 				if err != nil {
 					log.Errorw("Cannot update index with new record location", "err", err)
@@ -345,6 +352,7 @@ func (gc *primaryGC) reapRecords(fileNum uint32, lowUsePercent int64) (bool, err
 				}
 			}
 
+			vhook.Point("prigc.reloc.afterFree")
 			busyAt = prevBusyAt
 			busySize = prevBusySize
 			prevBusyAt = -1
@@ -486,6 +494,7 @@ func deleteRecords(freeBatch []*types.Block, maxFileSize uint32, basePath string
 			continue
 		}
 
+		vhook.Point("prigc.beforeDelete")
 		// Mark the record as deleted by setting the highest bit in the size. This
 		// assumes that the record size is < 2^31.
 		binary.LittleEndian.PutUint32(sizeBuf, recSize|deletedBit)
